@@ -39,6 +39,7 @@ func substrate(c *Ctx, which string) []*RuleResult {
 			prefixFilter(c.rule("R13", ruleR13), "R13", "substrate red-black tree: descents use the comparator's full verdict with one orientation; no Go operators on keys", 4, "R13a:trees/redblacktree", "R13b:trees/redblacktree"),
 			prefixFilter(c.rule("R21", ruleR21), "R21", "substrate red-black tree: insert/delete fix-up chains are wired on every path", 6, "R21:rbt."),
 			prefixFilter(c.rule("R28", ruleR28), "R28", "substrate red-black tree: Remove replaces a node by its only child / hands over the in-order predecessor", 1, "R28:trees/redblacktree"),
+			c.rule("R43", ruleR43), // the fix-up chains leave a red-black tree: a chain that rotates the wrong way round loses a subtree with the node it unlinks
 		}
 	case "dll":
 		return []*RuleResult{
@@ -134,8 +135,8 @@ func inherited(c *Ctx, own []*RuleResult, pids ...string) []*RuleResult {
 
 func init() {
 	properties["C01"] = propDef{run: func(c *Ctx) *PropertyRun {
-		return pr("other", "Decided: (R12b–e) the cached size of every tree moves only with the structure — replace-on-equal paths of Put touch neither counter nor links and report 'nothing added', decrements are guarded by 'found', increments travel with allocate-and-link; (R11) every child-link store has its parent-link twin; (R10) the red-black rotations and fix-up arms are mirror images; (R15) LinkedHashMap table and order list gain/lose a key on the same paths; (R16) BidiMap pairing; (R24) HashMap is the Go map; (R20) TreeMap delegates each operation to the same-named tree operation; (R13a) every comparator-driven descent (Put, Get, Remove, lookup of all three trees) branches on the comparator's full int result with one orientation — lookups and insertions take the same way down (a narrowed or re-oriented verdict in one of them loses keys); (R32) the B-tree's hand-written slice surgery keeps its indices consistent: a shift by one opens a gap that is filled at that index after growing by one, or closes one before truncating by one, and a split partitions entries into [:k] / [k+1:] with entry k moving up and children divided at k+1; (R34) rotations preserve the in-order sequence of the subtree they re-hang (symbolic-heap replay of every path; catches mistakes that are symmetric in both directions, which the mirror rule cannot see); (R28) Remove replaces a node by one of its children only when the other is known nil, and a node with two children takes both key and value of its in-order neighbour, which is then the node unlinked (red-black Remove, AVL remove/removeMin); (R36) B-tree descents hop through the first or last child of the node they are on (or its search result) and delete replaces an internal entry by the last entry of the right-most leaf to its left, removing exactly that entry there, and the key it hands to rebalance locates that leaf under the key-searching sibling lookup (a successor's key, once moved up, resolves to the wrong side); (R37) a borrow/merge in rebalance addresses the parent entry between the node and the sibling it works with (left: the index leftSibling returned; right: rightSibling's index - 1), takes the sibling's adjacent end entry and deletes what it moved. Not decided: that a lookup after an arbitrary history finds the last value — the correctness of the red-black / AVL / B-tree algorithms themselves (which case fires for which shape); a recolouring mistake that keeps links, counters and mirror arms consistent is not detected."+notBehaviour,
-			c.rule("R12", ruleR12), c.rule("R11", ruleR11),
+		return pr("other", "Decided: (R12b–e) the cached size of every tree moves only with the structure — replace-on-equal paths of Put touch neither counter nor links and report 'nothing added', decrements are guarded by 'found', increments travel with allocate-and-link; (R11) every child-link store has its parent-link twin; (R10) the red-black rotations and fix-up arms are mirror images; (R15) LinkedHashMap table and order list gain/lose a key on the same paths; (R16) BidiMap pairing; (R24) HashMap is the Go map; (R20) TreeMap delegates each operation to the same-named tree operation; (R13a) every comparator-driven descent (Put, Get, Remove, lookup of all three trees) branches on the comparator's full int result with one orientation — lookups and insertions take the same way down (a narrowed or re-oriented verdict in one of them loses keys); (R32) the B-tree's hand-written slice surgery keeps its indices consistent: a shift by one opens a gap that is filled at that index after growing by one, or closes one before truncating by one, and a split partitions entries into [:k] / [k+1:] with entry k moving up and children divided at k+1; (R34) rotations preserve the in-order sequence of the subtree they re-hang (symbolic-heap replay of every path; catches mistakes that are symmetric in both directions, which the mirror rule cannot see); (R28) Remove replaces a node by one of its children only when the other is known nil, and a node with two children takes both key and value of its in-order neighbour, which is then the node unlinked (red-black Remove, AVL remove/removeMin); (R36) B-tree descents hop through the first or last child of the node they are on (or its search result) and delete replaces an internal entry by the last entry of the right-most leaf to its left, removing exactly that entry there, and the key it hands to rebalance locates that leaf under the key-searching sibling lookup (a successor's key, once moved up, resolves to the wrong side); (R37) a borrow/merge in rebalance addresses the parent entry between the node and the sibling it works with (left: the index leftSibling returned; right: rightSibling's index - 1), takes the sibling's adjacent end entry and deletes what it moved. (R42, R43) the rebalancing steps leave the invariants the next operation relies on: after every AVL rotation the stored balance factors are the height differences (a wrong factor makes a later fix rotate around a child that is not there), and every path of the red-black insert/delete chains leaves equal black heights and no red-red edge (a chain that takes the mirrored arm for the wrong side lifts the node about to be unlinked above its parent and the unlinking discards the parent's subtree: live keys are lost). Not decided: that a lookup after an arbitrary history finds the last value — the correctness of the red-black / AVL / B-tree algorithms themselves (which case fires for which shape); a recolouring mistake that keeps links, counters and mirror arms consistent is not detected."+notBehaviour,
+			c.rule("R12", ruleR12), c.rule("R11", ruleR11), c.rule("R42", ruleR42), c.rule("R43", ruleR43),
 			prefixFilter(c.rule("R10", ruleR10), "R10", "MIRROR: red-black rotations, fix-up arms, Put/lookup arms; AVL GetNode/put/remove arms", 13, "R10:trees/redblacktree.Tree.rotate", "R10:trees/redblacktree.Tree.insertCase", "R10:trees/redblacktree.Tree.deleteCase", "R10:trees/redblacktree.Tree.replaceNode", "R10:trees/redblacktree.Node.sibling", "R10:trees/redblacktree.Tree.Put", "R10:trees/redblacktree.Tree.lookup", "R10:trees/avltree.Tree.GetNode", "R10:trees/avltree.Tree.put", "R10:trees/avltree.Tree.remove"),
 			prefixFilter(c.rule("R15", ruleR15), "R15", "LINKED: LinkedHashMap table ↔ order list", 5, "R15a:maps/linkedhashmap", "R15b:maps/linkedhashmap", "R15c:maps/linkedhashmap", "R15w:maps/linkedhashmap", "R15d:maps/linkedhashmap"),
 			c.rule("R16", ruleR16), prefixFilter(c.rule("R24", ruleR24), "R24", "HASH: HashMap is the Go map", 5, "R24:maps/hashmap"), rolesFor(c, "C01"),
@@ -167,6 +168,9 @@ func init() {
 				prefixFilter(c.rule("R15", ruleR15), "R15", "LINKED: LinkedHashSet table ↔ order list", 5, "R15a:sets/linkedhashset", "R15b:sets/linkedhashset", "R15c:sets/linkedhashset", "R15w:sets/linkedhashset", "R15d:sets/linkedhashset"),
 				prefixFilter(c.rule("R24", ruleR24), "R24", "HASH: HashSet is the Go map", 2, "R24:sets/hashset"),
 				prefixFilter(c.rule("R46", ruleR46), "R46", "CTORVALUES: New(values...) / NewWith(cmp, values...) of the three sets hand the values to the set unless there are none", 3, "R46:sets/"),
+				filter(c.rule("R2d", ruleR2d), "R2d", "SEPARATE: a set handed out by Union/Intersection/Difference/Select/Map shares no storage with its operands (an Add or Remove on one set is never an Add or Remove on another)", 9, func(o Obligation) bool {
+					return strings.HasPrefix(o.Key, "R2d:sets/")
+				}),
 				prefixFilter(c.rule("R23", ruleR23), "R23", "MEMBERSHIP: Contains(xs...) of the three sets", 3, "R23c:sets/"),
 				prefixFilter(c.rule("R12", ruleR12), "R12", "SIZE: Empty/Size/Values of the three sets", 6, "R12f:sets/"),
 				prefixFilter(c.rule("R13", ruleR13), "R13", "ORDER: TreeSet and the red-black tree under it never compare elements with Go operators; the tree's descents use the comparator's full verdict with one orientation", 5, "R13b:sets/treeset", "R13b:trees/redblacktree", "R13a:trees/redblacktree"),
@@ -247,7 +251,7 @@ func init() {
 			prefixFilter(c.rule("R30", ruleR30), "R30", "insertion path of the array-backed loaders: Add grows the list by exactly the added values", 1, "R30:lists/arraylist.(*List).Add"),
 			// what the input denotes for the insertion-ordered map includes the order of its members: recovered by the decoder,
 			// not by searching the text (finding F7 is this clause on today's tree)
-			prefixFilter(c.rule("R9", ruleR9), "R9", "ORDER OF THE DOCUMENT: the insertion-ordered map's loader hands its raw input only to the JSON decoder", 1, "R9f:maps/linkedhashmap"))
+			prefixFilter(c.rule("R9", ruleR9), "R9", "ORDER OF THE DOCUMENT: the insertion-ordered map's loader hands its raw input only to the JSON decoder; json.Unmarshal reaches the loader: every UnmarshalJSON is a pure forwarder to FromJSON (no input, null included, is answered without it)", 22, "R9f:maps/linkedhashmap", "R9a:"))
 	}}
 	properties["C13"] = propDef{run: func(c *Ctx) *PropertyRun {
 		return pr("other", "Decided: (R18) for the three sets, Intersection has one loop per operand that adds the current element iff the other operand contains it (both arms, selected by comparing sizes), Union adds every element of both operands in two consecutive loops, Difference adds an element of the receiver iff the argument does not contain it; membership is tested on the right operand with the current element; the result is built by the set's constructor (TreeSet: with the operands' comparator, loops reachable only after the comparators were found identical); (R1) neither operand is written on any path — in particular when both are the same object; (R2d) the result embeds no pointer, slice or map of an operand. Not decided: membership exactness beyond the arm structure (rests on Contains/Add, C04). Inherited: the set operations are built from the sets' own Add/Contains/iteration — all clauses of C04 (including the red-black tree and the order list under TreeSet and LinkedHashSet) are part of this check."+notBehaviour,
